@@ -49,10 +49,14 @@ let cz = Conv.coqz_of_z
 (* contiguous integer range lo..hi *)
 let range lo hi = List.init (hi - lo + 1) (fun i -> cz (Z.of_int (lo + i)))
 
+(* the symbols of a window: ALL symbols occurring in the formulas (they are the values of constants:
+   a structure that lacks one of them is not a structure of the signature, and
+   [exists X$s (X$s = b)] would be false in it), padded to [n] with fresh ones *)
 let syms_for (fs : formula list) (n : int) : char list list =
-  let syms = List.concat_map symbols fs in
-  Semlib.take n (List.fold_left (fun acc s -> if List.mem s acc then acc else acc @ [ s ]) []
-                   (syms @ [ Semlib.cl "a"; Semlib.cl "zz"; Semlib.cl "zy" ]))
+  let dedup = List.fold_left (fun acc s -> if List.mem s acc then acc else acc @ [ s ]) [] in
+  let occ = dedup (List.concat_map symbols fs) in
+  if List.length occ >= n then occ
+  else Semlib.take n (dedup (occ @ [ Semlib.cl "a"; Semlib.cl "zz"; Semlib.cl "zy" ]))
 
 (* cost of one evaluation: number of atomic evaluations, quantifiers ranging over the window *)
 let rec cost (w : window) (f : formula) : float =
